@@ -5,7 +5,7 @@ From Coq Require Extraction.
 From Coq Require Import ExtrOcamlBasic.
 From Coq Require Import List ZArith NArith.
 From Coq.Strings Require Import Byte.
-From OgRek Require Import Base Utf8 GoStrconv PyQuote Float Value PyEq Dict Reader Decoder Typeconv Encoder Norm Insn EncProg PyVM PyVal Bufio DecodeL1 PyVM2 Dis.
+From OgRek Require Import Base Utf8 GoStrconv PyQuote Float Value PyEq Dict Reader Decoder Typeconv Encoder Norm NormMaps Insn EncProg PyVM PyVal Bufio DecodeL1 PyVM2 Dis.
 From OgRek Require AloneFacts.
 Extraction Language OCaml.
 Extraction "model.ml"
@@ -19,4 +19,4 @@ Extraction "model.ml"
   init_state decode decode_stream has_stale Build_dconfig as_int64 as_bytes as_string
   encode run_w output Build_econfig norm unerase reify erase fits_proto
   asm iproto sd_step sd_run program pyload pyval_of decode_all1 Build_bst pd_merge qload qheap_get asm_all dis
-  hmap inv_load inv_g qload_all q_init AloneFacts.memo_freeb AloneFacts.self_containedb.
+  hmap inv_load inv_g qload_all q_init AloneFacts.memo_freeb AloneFacts.self_containedb norm2.
